@@ -36,9 +36,11 @@ THEOREMS = [_T + n for n in [
     "C10_export_switches_bbox", "C10_export_error_policy_ignore", "C10_export_error_policy_raise",
     "C10_export_order", "C10_export_no_error_all",
     # round trip
-    "C10_roundtrip_label", "C10_roundtrip_segment", "C10_roundtrip_segment_samples", "C10_roundtrip_segment_general",
-    "C10_roundtrip_sequence_general", "C10_roundtrip_holds_general", "C10_roundtrip_bbox", "C10_roundtrip_sequence",
-    "C10_roundtrip_annotation_bbox", "C10_roundtrip_annotation_seq", "C10_roundtrip_holds_segment",
+    "C10_roundtrip_label", "C10_roundtrip_segment_steps", "C10_roundtrip_segment", "C10_roundtrip_segment_samples",
+    "C10_roundtrip_segment_general_steps", "C10_roundtrip_segment_general", "C10_roundtrip_monitor_segment",
+    "C10_roundtrip_monitor_sequence", "C10_roundtrip_sequence_general", "C10_roundtrip_holds_general",
+    "C10_roundtrip_bbox_steps", "C10_roundtrip_bbox", "C10_roundtrip_sequence", "C10_roundtrip_annotation_bbox",
+    "C10_roundtrip_annotation_seq", "C10_roundtrip_holds_segment", "C10_roundtrip_monitor_sequence_seconds",
     "C10_roundtrip_holds_sequence",
     # the defects of the pinned commit, as theorems about the pinned cascades
     "C10_pinned_to_tags_differs_iff", "C10_pinned_from_tags_differs_iff",
@@ -570,6 +572,7 @@ def _holds_rt_segment(ctx, inp, io):
     a, b = _seg_times(s, sr)
     if not (0 <= a <= b):
         return None
+    ctx.tally("monitored:roundtrip_segment" + (":free" if inp.get("free") else ""))
     if "val" not in io:
         return "round trip of a valid segment raised %r" % (io,)
     if inp.get("free"):
@@ -600,6 +603,7 @@ def _box_rt_domain(inp):
 def _holds_rt_bbox(ctx, inp, io):
     if not _rt_domain(inp) or not _box_rt_domain(inp):
         return None
+    ctx.tally("monitored:roundtrip_bbox")
     if "val" not in io:
         return "round trip of a valid box raised %r" % (io,)
     ok = ctx.model("rt_bbox_ok", {"x": inp["bbox"], "y": io["val"]})
@@ -617,6 +621,7 @@ def _holds_rt_sequence(ctx, inp, io):
         a, b = _seg_times(s, sr)
         if not (0 <= a <= b):
             return None
+    ctx.tally("monitored:roundtrip_sequence" + (":free" if inp.get("free") else ""))
     if "val" not in io:
         return "round trip of a valid sequence raised %r" % (io,)
     if inp.get("free"):
@@ -654,6 +659,7 @@ def _holds_rt_annotation(ctx, inp, io):
             a, b = _seg_times(s, sr)
             if not (0 <= a <= b):
                 return None
+    ctx.tally("monitored:roundtrip_annotation")
     if "val" not in io:
         return "round trip of a valid annotation raised %r" % (io,)
     x = {"notated_path": c["notated_path"], "bboxes": c["bboxes"], "seqs": c["seqs"]}
